@@ -62,6 +62,8 @@ func main() {
 			}
 			fmt.Printf("%s %d %d\n", pr.ID, must, benign)
 		}
+	case "sweep":
+		os.Exit(cmdSweep(os.Args[2:]))
 	case "warm":
 		if _, err := core.Load(envOr("NPVERIF_REPO", "/repo"), nil); err != nil {
 			fmt.Fprintln(os.Stderr, "warm:", err)
